@@ -253,6 +253,52 @@ func runC12(c *rt.Ctx) {
 			}
 		}
 	}
+	// commands the deployed backend does not support: with the chunked L1 (memproxy --chunked --locked)
+	// get-with-expiry ends in a panic below the wrapper, with L2 enabled in an error return; either
+	// way the key's lock must be free for the other connection and the connection must not be left
+	// waiting with the lock held
+	for _, orca := range []string{"l1only", "l1l2b"} {
+		cfg := Cfg{Orca: orca, Lock: "single", Proto: "binary", L1H: "chunked", Conc: 0}
+		for _, first := range []wire.Op{{Kind: "gete", Key: "a"}, {Kind: "gete", Key: "nope"}} {
+			for _, follow := range []wire.Op{{Kind: "set", Key: "a", Val: "after", Flags: 4}, {Kind: "get", Key: "a"}} {
+				item++
+				if !c.Mine(item) || c.Expired() {
+					continue
+				}
+				sc := ConcScenario{Harness: "C12", Cfg: cfg, Init: initStates("a")[2].Ops, Threads: []ConcThread{{Port: 0, Ops: []wire.Op{first}}, {Port: len(cfg.Ports()) - 1, Ops: []wire.Op{follow}}}}
+				ex := &sched.Explorer{Bound: -1, MaxExecs: 20000, Expired: c.Expired}
+				ex.Explore(func(prefix []int) *sched.Sched {
+					var r *ConcResult
+					sched.Bubble(c.T, func() { r = RunConc(sc, prefix) })
+					c.Eval(1)
+					c.Trace(1)
+					c.Trans(int64(len(r.S.Trace)))
+					for _, fd := range r.Findings {
+						switch fd.Clause {
+						case "deadlock", "lock-leaked", "multiple-locks-held", "lock-model-conformance", "panic-escaped":
+							scc := sc
+							scc.Choices = r.S.Choices()
+							cl := fd.Clause
+							if cl == "deadlock" {
+								cl = "lock-never-released"
+							}
+							c.Violation(fmt.Sprintf("C12 %s op=%s mode=unsupported-command cfg=%s", cl, opTag(first), cfgClass(cfg)), fd.What+"\nschedule: "+r.S.Describe(), scc)
+						}
+					}
+					for _, ho := range r.Hist {
+						if ho.Thread == 1 && ho.Reply.Class == "none" && !r.S.Deadlock {
+							scc := sc
+							scc.Choices = r.S.Choices()
+							c.Violation(fmt.Sprintf("C12 followup-unanswered op=%s mode=unsupported-command cfg=%s", opTag(first), cfgClass(cfg)), "the follow-up command received no reply", scc)
+						}
+					}
+					return r.S
+				}, func(s *sched.Sched) bool { return true })
+				c.Distinct("unsupported|" + orca + "|" + opTag(first) + "|" + follow.Kind)
+				c.Nontrivial("unsupported|" + orca + "|" + opTag(first) + "|" + follow.Kind)
+			}
+		}
+	}
 	// contention while time passes: every pair of commands on one key from two connections and a
 	// later reader, with "let a second of (virtual) time pass" as an explorer event at every decision
 	// at which the code under test has a timer armed (none is, on the present tree: the alternatives
